@@ -39,7 +39,8 @@ def handleC11 : Handler := fun op j =>
     match cmd with
     | "map" =>
       match mapPick tr with
-      | some e => pure (Json.mkObj [("pick", jEntry e)])
+      | some e => pure (Json.mkObj [("pick", jEntry e),
+          ("candidates", Json.arr ((mapCandidates tr).map jEntry).toArray)])
       | none => throw "IndexError: empty trace"
     | "freq" =>
       match freqPick tr with
